@@ -1,4 +1,5 @@
 import FrappyModel.Timed.Poller
+import FrappyModel.Timed.PollFlags
 /-
 C13 — Poller: bounded staleness, no starvation, survives failing reads.
 
@@ -122,6 +123,27 @@ def nPolled (mods : List ModInfo) : Nat :=
 /-- the interval in force just before time `b`, and since when -/
 def inForce (ivs : List (Nat × Nat)) (b : Nat) : Nat × Nat :=
   ivs.foldl (fun cur e => if e.1 < b then e else cur) (0, 0)
+
+/-! ## which parameters are marked as not polled -/
+
+/-- **a parameter is marked as not polled** when the class gives the poller nothing to call for it: there is no read
+function at all, or the read function (or the handler function, or the handler) carries `nopoll`, or the parameter is a
+further key of a common read handler (one call of the handler — polled under its first key — reads them all) -/
+def MarkedNotPolled (d : PollFlags.Decl) : Prop :=
+  match d.kind with
+  | .none => True
+  | .plain => d.inner = true ∨ d.outer = true
+  | .handler => d.inner = true ∨ d.outer = true
+  | .commonFirst => d.inner = true ∨ d.outer = true
+  | .commonRest => True
+
+instance (d : PollFlags.Decl) : Decidable (MarkedNotPolled d) := by
+  unfold MarkedNotPolled; cases d.kind <;> simp only <;> infer_instance
+
+/-- the parameters the poller may read (positions in the module's parameter list): those not marked as not polled -/
+def mayPoll : Nat → List PollFlags.Decl → List Nat
+  | _, [] => []
+  | i, d :: ds => (if MarkedNotPolled d then [] else [i]) ++ mayPoll (i + 1) ds
 
 /-! ## clauses -/
 
